@@ -89,7 +89,7 @@ def run(ctx):
                 fails.append({"what": f"{desc}: standard output differs from the command's own output (apart from one trailing notice): {out[-200:]!r} vs {ref['stdout'][-200:]!r}", "replay": rp})
             if n_notice and (b not in ("newer", "slow") or ref["exit"] != 0):
                 fails.append({"what": f"{desc}: update notice printed although no strictly newer final release was reported / the command failed", "replay": rp})
-            if res["dt"] > ref["dt"] + 1.0 + 0.6 or res["wall"] > ref["wall"] + 1.0 + 1.5:
+            if res["dt"] > ref["dt"] + 1.0 + 0.8 or res["wall"] > ref["wall"] + 1.0 + 2.0:
                 fails.append({"what": f"{desc}: took {res['dt']:.2f}s in-command / {res['wall']:.2f}s wall, the command alone {ref['dt']:.2f}s / {ref['wall']:.2f}s: delayed by more than the one second join", "replay": rp})
             if len(samples) < 4 and b in ("hang", "newer", "garbage", "late"):
                 samples.append({"behaviour": b, "group": group, "cmd": args[0], "exit": res["exit"], "dt": round(res["dt"], 2), "notice": bool(n_notice)})
@@ -99,7 +99,7 @@ def run(ctx):
            "rule": "one evaluation = one (server behaviour, CLI group, command, world) run in a FRESH interpreter with requests.get stubbed before the import that starts the checker thread; compared with the same command run without the checker: exit code, stdout minus one trailing notice, duration <= +1 s (+ scheduling slack); 17 behaviours x 6 command/world combinations",
            "samples": samples, "input_distribution": {"behaviours": BEHAVIOURS, "commands": ["info(0)", "diff(10)", "info(30)", "verify(0)", "verify(11)", "hash(0)"]},
            "monitor": {"cases": evals, "failing": len(fails)}, "exhaustive": False}
-    return fw.finish(ctx, cov, fails, [], assumptions=["CPython's scheduler and click's callback plumbing are exercised, not modelled", "timing slack 0.6 s in-process / 1.5 s process wall on top of the 1 s join"])
+    return fw.finish(ctx, cov, fails, [], assumptions=["CPython's scheduler and click's callback plumbing are exercised, not modelled", "timing slack 0.8 s in-process / 2.0 s process wall on top of the 1 s join"])
 
 
 def replay(ctx, path):
